@@ -1,4 +1,6 @@
 //! Kani harnesses over chalk-ir's public API (C18, C25, C26).
 #![allow(unused_imports, dead_code)]
 pub mod c18;
+pub mod c25;
+pub mod c26;
 #[cfg(kani)] pub mod fold_probe;
